@@ -112,7 +112,7 @@ def c12(ctx):
             for i, s in enumerate(hist):
                 k = '%s|fresh%d' % (hid, i)
                 cases.append({'pkg': r['id'], 'k': k, 'entry': 'R0', 'memo': True, 'u': 32, 'size': 0, 'b64': L.b64(s)})
-                lst.append({'k': k, 'entry': 'R0', 'memo': True, 'input': L.runes_of(s), 'spec': True})
+                lst.append({'k': k, 'entry': 'R0', 'memo': True, 'bytes': L.bytes_of(s), 'spec': True})
             meta[hid] = (r, hist)
         mreq[r['id']] = {'id': r['id'], 'tree': x['tree'], 'opts': r['opts'], 'cases': lst}
     robs = M.run(cases)
@@ -270,7 +270,7 @@ def c13(ctx):
             for memo in (True, False):
                 cases.append({'pkg': r['id'], 'k': k + ('|m' if memo else '|n'), 'entry': 'R0', 'memo': memo, 'b64': L.b64(s)})
             if len(s) < 2000:
-                lst.append({'k': k + '|m', 'entry': 'R0', 'memo': True, 'input': L.runes_of(s), 'spec': True})
+                lst.append({'k': k + '|m', 'entry': 'R0', 'memo': True, 'bytes': L.bytes_of(s), 'spec': True})
         mreq[r['id']] = {'id': r['id'], 'tree': x['tree'], 'opts': '', 'cases': lst}
     robs = M.run(cases, timeout=900)
     neval = npan = 0
